@@ -22,8 +22,8 @@ def obligations(tier, seed):
     combos = [(True, False), (True, True), (False, False), (False, True)]
     shards = []
     for k in range(n):
-        for L in (((1, 3)[(k + seed) % 2],) if tier == 'quick' else (1, 2, 3)):
-            cs = [combos[(k // 2 + seed) % 4]] if tier == 'quick' else combos
+        for L in ((1, 3) if tier == 'quick' else (1, 2, 3)):
+            cs = [combos[(k // 2 + seed + L) % 4]] if tier == 'quick' else combos
             for (rl, rg) in cs:
                 pre = ['k == %d' % k, 'len(A) == %d and len(B) == %d and len(C) == %d' % (L, L, L),
                        '"." not in A and "." not in B and "." not in C', 'rl == %s' % rl, 'rg == %s' % rg]
